@@ -13,3 +13,5 @@ import LopdfModel.Lemmas.Lex
 import LopdfModel.Thm.C01
 import LopdfModel.Model.Content
 import LopdfModel.Thm.C14
+import LopdfModel.Lemmas.File
+import LopdfModel.Thm.C03
